@@ -165,13 +165,13 @@ class Builder:
 
     def find(self, suffix, selftype=None):
         """by name suffix and (optionally) the type of the receiver `_1` -- never by source line"""
-        c = [f for n, f in self.funcs.items() if (n.endswith(suffix) or n == suffix.lstrip(":")) and (selftype is None or re.search(selftype, f.argtypes.get("_1", "")))]
+        c = [f for f in self.funcs.values() if (f.name.endswith(suffix) or f.name == suffix.lstrip(":")) and (selftype is None or re.search(selftype, f.argtypes.get("_1", "")))]
         if len(c) != 1:
             raise ExtractionError("function %s (self: %s): %d candidates in the MIR dump" % (suffix, selftype, len(c)))
         return c[0]
 
     def find_closure(self, loc):
-        c = [f for n, f in self.funcs.items() if ("{closure@%s}" % loc) in f.argtypes.get("_1", "")]
+        c = [f for f in self.funcs.values() if ("{closure@%s}" % loc) in f.argtypes.get("_1", "")]
         if len(c) != 1:
             raise ExtractionError("closure %s: %d candidates" % (loc, len(c)))
         return c[0]
@@ -376,7 +376,7 @@ class Builder:
                         ph.succ["ok"] = self.inline(callee, nxt, callback=cb3, depth=depth + 1)
                     elif f2.startswith("Heap::"):
                         nm = "::" + f2.split("::")[1]
-                        c = [f for n_, f in self.funcs.items() if n_.endswith(nm) and re.match(r"&mut (?:values::closed::)?Heap$", f.argtypes.get("_1", ""))]
+                        c = [f for f in self.funcs.values() if f.name.endswith(nm) and re.match(r"&mut (?:values::closed::)?Heap$", f.argtypes.get("_1", ""))]
                         if len(c) != 1:
                             raise ExtractionError("Heap%s: %d candidates" % (nm, len(c)))
                         ph.succ["ok"] = self.inline(c[0], nxt, depth=depth + 1, free=True)
